@@ -15,7 +15,8 @@ EXPLANATION = (
     "store level: TrackStore::add delegates to add_observation / TrackBuilder::build, the worker's Merge arm forwards "
     "Track::merge's result, merge_owned re-adds the fetched source on failure. "
     "R11.4 also requires that TrackStore::add puts a track into the shard only when no error exit is reachable afterwards; R11.5 who-may-write rows for Track.{attributes, observations, merge_history}."
-    " R11.4 also requires that the worker's Merge arm hands Track::merge the class list and the history flag exactly as the caller sent them (or the classes of the source when the list is empty).")
+    " R11.4 also requires that the worker's Merge arm hands Track::merge the class list and the history flag exactly as the caller sent them (or the classes of the source when the list is empty)."
+    ' (R11.6) who-may-notify: notifications come from Track::new / add_observation / merge only; (R11.7) Track::merge decides presence of a class in the source by a plain lookup in its observation map; (R11.8) the shard-membership owners of C09 (a merge that takes the destination out of its shard is reported).')
 NOT_DECIDED = ["faithfulness of the user's Clone impls (assumed)", "interior mutability inside user attribute types"]
 ASSUMPTIONS = ["Clone of TA / M / observations is a faithful snapshot", "panics are out of scope",
                "rustc nightly MIR construction"]
@@ -270,7 +271,7 @@ def run(ctx):
                       'Track::merge reads the observations of a source class as %r: not a plain lookup in the source\'s '
                       'observation map - a class the source holds can count as absent (no history extension, class not '
                       'merged)' % e, c.ln)
-    ctx.floor('R11.7', n7, 1)
+    ctx.evaluated('R11.7', n7, 1)
     from props import C09
     C09.r10(ctx, 'R11.8')
     import misclib
